@@ -1635,14 +1635,17 @@ class WassersteinVectorizer(BaseEstimator, TransformerMixin):
                     "distribution matrix must have as many columns as there are vectors"
                 )
 
+            unnormalized_X = X
             X = normalize(X, norm="l1")
 
             if self.method == "HeuristicLinearAlgebra":
                 # self.fit_transform(X, y, vectors=vectors, **fit_params)
                 self.vectors_ = vectors
-                basis_transformed_matrix = X @ vectors
+                # same formula as transform (and ApproximateWassersteinVectorizer): raw row mass to the given power
+                basis_transformed_matrix = unnormalized_X @ vectors
                 basis_transformed_matrix /= np.power(
-                    np.array(X.sum(axis=1)), self.heuristic_normalization_power
+                    np.array(unnormalized_X.sum(axis=1)),
+                    self.heuristic_normalization_power,
                 )
                 u, self.singular_values_, self.components_ = randomized_svd(
                     basis_transformed_matrix,
